@@ -726,7 +726,9 @@ func fix128BigIntToFix64(
 		panic(&UnderflowError{})
 	}
 
-	bigInt = bigInt.Div(bigInt, fixedpoint.Fix64ToFix128FactorAsBigInt)
+	// Use `Quo` (truncated division), not `Div` (Euclidean division),
+	// so that excess fractional digits of negative values are truncated toward zero.
+	bigInt = bigInt.Quo(bigInt, fixedpoint.Fix64ToFix128FactorAsBigInt)
 	return NewFix64Value(
 		memoryGauge,
 		func() int64 {
